@@ -4,3 +4,4 @@ import LalModel.Props.C02
 #print axioms Lal.Props.C02.prologue_is_headers_then_gops
 #print axioms Lal.Props.C02.joiner_waits_iff_video_known
 #print axioms Lal.Props.C02.waiting_holds_only_headers
+#print axioms Lal.Props.C02.cached_gops_start_with_key_frame
